@@ -36,6 +36,42 @@ fn deep_borrow(t: &refabi::Ty) -> bool {
     }
 }
 
+/// constructed call sequences: results whose cases differ in what they own, returned in the order
+/// "heap-owning case first, heap-less case next" (the static return area and recycled list
+/// buffers still hold the pointers of the earlier value), directly and inside lists, and the
+/// same shapes as parameters
+pub fn constructed() -> Vec<ProxyWorld> {
+    use exec::{Call, Func};
+    use refabi::{Ty, Val};
+    let s = |x: &str| Val::Str(x.to_string());
+    let some = |v: Val| Val::Option(Some(Box::new(v)));
+    let none = || Val::Option(None);
+    let opt_s = Ty::Option(Box::new(Ty::String));
+    let res = Ty::Result(Some(Box::new(Ty::U32)), Some(Box::new(Ty::String)));
+    let var = Ty::Variant(vec![("c0".into(), None), ("c1".into(), Some(Ty::String)), ("c2".into(), Some(Ty::List(Box::new(Ty::U16))))]);
+    let lst = Ty::List(Box::new(opt_s.clone()));
+    let rec = |t: Ty| Ty::Record(vec![("w".to_string(), t)]);
+    let ok = |v: Val| Val::Result(Ok(Some(Box::new(v))));
+    let err = |v: Val| Val::Result(Err(Some(Box::new(v))));
+    let results = |t: Ty, vals: Vec<Val>, f: usize| -> (Func, Vec<Call>) { (Func { params: vec![], result: Some(t), sink: false }, vals.into_iter().map(|v| Call { func: f, params: vec![], result: Some(v) }).collect()) };
+    let params = |t: Ty, vals: Vec<Val>, f: usize| -> (Func, Vec<Call>) { (Func { params: vec![rec(t)], result: None, sink: false }, vals.into_iter().map(|v| Call { func: f, params: vec![Val::Record(vec![v])], result: None }).collect()) };
+    let opt_vals = || vec![some(s("first value")), none(), none(), some(s("x")), none()];
+    let res_vals = || vec![err(s("an error text")), ok(Val::U32(7)), ok(Val::U32(0)), err(s("")), ok(Val::U32(1))];
+    let var_vals = || vec![Val::Variant(1, Some(Box::new(s("payload")))), Val::Variant(0, None), Val::Variant(2, Some(Box::new(Val::List(vec![Val::U16(1), Val::U16(2)])))), Val::Variant(0, None), Val::Variant(1, Some(Box::new(s("")))), Val::Variant(0, None)];
+    let lst_vals = || vec![Val::List(vec![some(s("a")), some(s("bb")), some(s("ccc"))]), Val::List(vec![none(), none(), none()]), Val::List(vec![none(), some(s("z")), none()]), Val::List(vec![])];
+    let mut out = vec![];
+    for as_result in [true, false] {
+        let mk = |t: Ty, v: Vec<Val>, f: usize| if as_result { results(t, v, f) } else { params(t, v, f) };
+        let (f0, c0) = mk(opt_s.clone(), opt_vals(), 0);
+        let (f1, c1) = mk(res.clone(), res_vals(), 1);
+        out.push(ProxyWorld { funcs: vec![f0, f1], calls: c0.into_iter().chain(c1).collect() });
+        let (f0, c0) = mk(var.clone(), var_vals(), 0);
+        let (f1, c1) = mk(lst.clone(), lst_vals(), 1);
+        out.push(ProxyWorld { funcs: vec![f0, f1], calls: c0.into_iter().chain(c1).collect() });
+    }
+    out
+}
+
 const VALUE_SIGS: &[&str] = &["value-changed-in-implementation", "value-changed-export-to-import", "value-changed-import-to-export", "undecodable-value", "import-call-count", "import-arity", "import-unexpected", "import-name", "load-error"];
 const HEAP_SIGS: &[&str] = &["heap-leak", "heap-misuse"];
 
@@ -55,7 +91,8 @@ pub fn run(check: &mut Check) {
     vcommon::abort::install(&check.id, "worlds", check.sub_seed("worlds", 0));
     let nworlds = std::env::var("VERIF_N").ok().and_then(|s| s.parse().ok()).unwrap_or(check.tier.pick(42usize, 700));
     let vars = variants();
-    let worlds: Vec<ProxyWorld> = check.draw("worlds", &exec::world_strategy(true, true), nworlds);
+    let mut worlds: Vec<ProxyWorld> = check.draw("worlds", &exec::world_strategy(true, true), nworlds);
+    worlds.extend(constructed());
     let batch = 70;
     let mut idx = 0;
     for chunk in worlds.chunks(batch) {
